@@ -98,7 +98,9 @@ Replay(b, i) ==
            refresh == Refreshes(s)
            s2 == IF refresh THEN Refreshed(s) ELSE s
            live == Exists(s) /\ Authorised(s2)
-       IN /\ Step("replay", [b |-> b, snap |-> i], IF live THEN [served |-> TRUE, user |-> s.user] ELSE [served |-> FALSE])
+       \* an old credential that is no longer honoured must be refused; one that still would be MAY be served (an implementation is free
+       \* to be stricter, e.g. to revoke self-contained cookies at sign-out) - but then only as the user it was issued to
+       IN /\ Step("replay", [b |-> b, snap |-> i, user |-> s.user, live |-> live], IF live THEN [servedAsOther |-> FALSE] ELSE [served |-> FALSE])
           \* the replayed request has the server-side effects of any request: it may redeem the refresh token (the renewed
           \* cookie goes to the replayer and is dropped), and an existing-but-unauthorised session is removed
           /\ br' = [x \in Browsers |-> IF refresh /\ live THEN Renew(br[x], s) ELSE br[x]]
@@ -156,7 +158,8 @@ StoreFlush ==
     /\ UNCHANGED <<br, snaps, allowed, idpOK, member, pw, usedRT, nsid>>
 
 \* what can be seen of the state from outside: does each browser hold a session cookie, how many sessions does the store hold
-Proj == [b1 |-> br["b1"].user # "none", b2 |-> br["b2"].user # "none", nstored |-> IF Store = "redis" THEN Cardinality(stored) ELSE 0]
+Proj == [b1 |-> br["b1"].user # "none", b2 |-> br["b2"].user # "none", nstored |-> IF Store = "redis" THEN Cardinality(stored) ELSE 0,
+         nsnaps |-> Len(snaps)]         \* (the number of credentials issued so far: the replay steps refer to them by index)
 P == proj' = Append(proj, Proj')
 \* (kept as a top-level disjunction: TLC's simulator then draws an action first and only evaluates that action's successors)
 Next == \/ (\E b \in Browsers, u \in Users : Login(b, u)) /\ P
